@@ -149,7 +149,9 @@ class Gen:
             leafs.append("m%d.h" % i)
         base_outs = [s["outs"][0] for s in sc["stmts"] if s["kind"] == "cmd"]
         nserved = r.randint(1, 4)
-        dd = "dd/x.dd"
+        dd = "dd/x.dd" if tag == "d" else "dd/%s.dd" % tag
+        scan_id = "scan" if tag == "d" else "scan_" + tag
+        scan_cfg = "ddscan.src" if tag == "d" else "ddscan_%s.src" % tag
         served, provided = [], []
         for i in range(nserved):
             src = "%s%d.src" % (tag, i)
@@ -181,17 +183,32 @@ class Gen:
                 if ln.startswith("#include ") and ln[9:] in base_outs and ln[9:] not in st["ins"] and r.random() < 0.4:
                     st["oins"].append(ln[9:])
             served.append(st)
-        scan = St("scan", [dd], ins=["%s%d.src" % (tag, i) for i in range(nserved)], kind="scan",
+        # the scanner also has an input of its own (its configuration): touching it regenerates the dyndep file without
+        # making any served statement out of date by itself
+        sc["sources"][scan_cfg] = "// scanner configuration\n"
+        scan = St(scan_id, [dd], ins=["%s%d.src" % (tag, i) for i in range(nserved)] + [scan_cfg], kind="scan",
                   serves=[[s["outs"][0], s["ins"][0]] for s in served])
         if static:
             sc["sources"][dd] = dyndep_text(scan, sc["sources"])
-            sc["static_dd"] = {dd: scan["serves"]}
+            sc.setdefault("static_dd", {})[dd] = scan["serves"]
         else:
             sc["stmts"].append(scan)
         sc["stmts"] += served
         for i, s in enumerate(served):
-            if r.random() < 0.5:
-                c = St("u%d" % i, ["o/u%d.o" % i], ins=[s["outs"][0]])
+            tail = s["outs"][0]
+            if r.random() < 0.3:
+                # aliases (also nested) behind a served statement: phony statements enter and leave the plan with it
+                for lv in range(r.randint(1, 3)):
+                    al = "al_%s%d_%d" % (tag, i, lv)
+                    sc["stmts"].append(St(al, [al], ins=[tail], kind="phony"))
+                    tail = al
+            if r.random() < 0.5 or tail != s["outs"][0]:
+                un = "u%d" % i if tag == "d" else "u%s%d" % (tag, i)
+                c = St(un, ["o/%s.o" % un], ins=[tail] if r.random() < 0.7 else [], oins=[] )
+                if not c["ins"]:
+                    sc["sources"]["c%s.c" % un] = "// %s\n" % un
+                    c["ins"] = ["c%s.c" % un]
+                    c["oins"] = [tail]
                 if r.random() < 0.3:
                     c["restat"] = True
                 sc["stmts"].append(c)
@@ -237,7 +254,7 @@ class Gen:
         kinds = kinds or ["edit", "edit", "touch", "rm_out", "cmd", "rsp", "rmlog", "rm_depfile", "edit_hdr", "edit_hdr"]
         for _ in range(20):
             k = r.choice(kinds)
-            srcs = sorted(p for p in sc["sources"] if p.endswith(".c"))
+            srcs = sorted(p for p in sc["sources"] if p.endswith(".c") or p.endswith(".src"))    # .src: what dyndep files are scanned from
             hdrs = sorted(p for p in sc["sources"] if p.endswith(".h"))
             cmds = [s for s in sc["stmts"] if s["kind"] != "phony"]
             if k == "edit" and srcs:
